@@ -205,6 +205,22 @@ CLAIMED.update({
         design="6/C08"),
 })
 
+CLAIMED.update({
+    "C18": dict(
+        technique="Lean 4 proof of the tool's own decision logic (status/exception mapping as read by download_file, transport selection under httpx mount precedence, verification switch, proxy selection, percent-encoding round trip of proxy credentials) + loopback HTTP/TLS/proxy servers on raw sockets driving the real HTTPDownloader and whole APTMirror runs",
+        text=("C18_status_contract, C18_exclusive, C18_exception_contract, C18_verify_table, C18_settings_reach_transport, C18_proxy_table, "
+              "C18_quote_roundtrip, C18_quote_clean (and the decided counterexamples C18_legacy_cert_counterexample, "
+              "C18_legacy_protocol_retry_counterexample) are proved; per-request server behaviours (status x headers x body shape x resets "
+              "x redirects) are checked against the property and Model/Http.classify; Downloader.download() over real HTTP is compared "
+              "with the Lean `download` fed the classified behaviours; whole runs from configuration files are checked at the server "
+              "log for User-Agent, URL credentials, proxy use and credentials, TLS verification mode, client certificate, ALPN; fault "
+              "plans over HTTP must give the exit status and tree of the simulated transport."),
+        note=("PARTIAL: wire behaviour of httpx/h11/h2/ssl is exercised on loopback servers, not proved; HTTP/2 framing and the FTP downloader are not covered. "
+              "Known findings F-C18b.1/.2 (protocol failures other than 'Server disconnected' reported as a free retry). F-C18a (client certificate never presented) fixed. "
+              "Trusted: Lean kernel, model, harness loopback servers."),
+        design="6/C18"),
+})
+
 NOT_YET = {}
 
 
